@@ -105,7 +105,11 @@ CORE_FORMS = {"array-element", "struct-field", "inline-if-lvalue", "target-cond-
 LOCAL_ONLY = ("local-only-writer", "int lw() { int t = 0; t = 1; t++; return t + k; }\n", None, "lw()", "lw()")
 
 
-def T(params=None, decl="", inv=None, guard=None, sync=None, assign=None, select=None, prob=None):
+def T(params=None, decl="", inv=None, guard=None, sync=None, assign=None, select=None, prob=None, kind=None):
+    if kind is not None:        # the invariant on an urgent / committed location
+        return X.template("T", params=params, decl=decl, locations=[X.location("id0", "L0", inv=inv, urgent=kind == "urgent", committed=kind == "committed"),
+                                                                  X.location("id1", "L1")],
+                          init="id0", transitions=[X.transition("id0", "id1", select=select, guard=guard, sync=sync, assign=assign)])
     if prob is not None:
         return X.template("T", params=params, decl=decl,
                           locations=[X.location("id0", "L0", inv=inv), X.location("id1", "L1")], branchpoints=["id2"], init="id0",
@@ -122,6 +126,8 @@ CONTEXTS = {
     "guard": (lambda d, e: X.nta(d, [T(guard="%s == 1" % e)], SYS), False),
     "invariant": (lambda d, e: X.nta(d, [T(inv="%s >= 0" % e)], SYS), False),
     "invariant-clock-bound": (lambda d, e: X.nta(d, [T(inv="x <= %s" % e)], SYS), False),
+    "invariant-urgent-location": (lambda d, e: X.nta(d, [T(inv="%s >= 0" % e, kind="urgent")], SYS), False),
+    "invariant-committed-location": (lambda d, e: X.nta(d, [T(inv="%s >= 0" % e, kind="committed")], SYS), False),
     "sync-index": (lambda d, e: X.nta(d, [T(sync="c[%s]!" % e)], SYS), False),
     "probability": (lambda d, e: X.nta(d, [T(prob=e)], SYS), False),
     "select-bound": (lambda d, e: X.nta(d, [T(select="s : int[0,%s]" % e)], SYS), True),
